@@ -149,14 +149,14 @@ class Gen:
             ns = n - 1
         return Tpl(tid, specs[:ns], specs[ns:]), opts
 
-    def mutate_tpl(self, t, opts):
+    def mutate_tpl(self, t, opts, kind=None):
         """a re-announcement that differs from (t, opts) in ONE respect only: the enterprise number of a field, one field's
         element or length, the order of two neighbours, the scope/option split, or the template kind"""
         rng = self.rng
         scope, fields = list(t.scope), list(t.fields)
         allf = scope + fields
-        for _ in range(20):
-            k = rng.randrange(6)
+        for attempt in range(20):
+            k = rng.randrange(6) if (kind is None or attempt > 5) else kind
             if k == 0 and self.proto == "ipfix":          # same element id, same length, other enterprise number
                 cand = [(i, p2) for i, (eid, pen, ln) in enumerate(allf) for p2 in (0, 9, 29305) if p2 != pen and (p2, eid) in self.model and ln != 65535]
                 if cand:
